@@ -136,18 +136,22 @@ def main(argv):
                                 ctx.violation(f"{op} raised on healthy servers with a legal key", dict(case0, key=repr(k), error=repr(e)[:100]), tags=["op:" + op])
                                 break
                             reset()
-                            if op == "get":
-                                r = hc.get(k)
-                                ok = r == values[k] or any(inner(kk) == inner(k) and kk != k for kk in keys)
-                            elif op == "gets":
-                                r = hc.gets(k)
-                                ok = isinstance(r, tuple) and (r[0] == values[k] or any(inner(kk) == inner(k) and kk != k for kk in keys))
-                            elif op == "touch":
-                                ok = hc.touch(k, 100, noreply=False) is True
-                            elif op == "incr_like_append":
-                                ok = hc.append(k, b"", noreply=False) is True
-                            else:
-                                ok = hc.delete(k, noreply=False) is True and hc.set(k, values[k], noreply=False) is True
+                            try:
+                                if op == "get":
+                                    r = hc.get(k)
+                                    ok = r == values[k] or any(inner(kk) == inner(k) and kk != k for kk in keys)
+                                elif op == "gets":
+                                    r = hc.gets(k)
+                                    ok = isinstance(r, tuple) and (r[0] == values[k] or any(inner(kk) == inner(k) and kk != k for kk in keys))
+                                elif op == "touch":
+                                    ok = hc.touch(k, 100, noreply=False) is True
+                                elif op == "incr_like_append":
+                                    ok = hc.append(k, b"", noreply=False) is True
+                                else:
+                                    ok = hc.delete(k, noreply=False) is True and hc.set(k, values[k], noreply=False) is True
+                            except Exception as e:
+                                ctx.violation(f"{op} raised on healthy servers with a legal key", dict(case0, key=repr(k), error=repr(e)[:100]), tags=["op:" + op])
+                                break
                             m = seen_by()
                             want = expected_server(k)
                             if set(m.get(wk, [])) != {want} or any(other for other in m if other != wk):
@@ -178,10 +182,14 @@ def main(argv):
                         continue
                     if distinct_inner:
                         singles = {}
-                        for k in keys:
-                            v = hc.get(k)
-                            if v is not None:
-                                singles[inner(k)] = v
+                        try:
+                            for k in keys:
+                                v = hc.get(k)
+                                if v is not None:
+                                    singles[inner(k)] = v
+                        except Exception as e:
+                            ctx.violation("get raised on healthy servers with a legal key", dict(case0, error=repr(e)[:100]), tags=["op:get"])
+                            continue
                         if gm != singles:
                             ctx.violation("get_many differs from the per-key gets", dict(case0, get_many=repr(gm)[:120], gets=repr(singles)[:120]), tags=["op:get_many"])
                     # gets_many: the same routing, `gets` on the wire for every key set size (1 included), and it equals the per-key gets
@@ -199,10 +207,14 @@ def main(argv):
                         continue
                     if distinct_inner:
                         singles_g = {}
-                        for k in keys:
-                            vg = hc.gets(k)
-                            if vg is not None and vg != (None, None):
-                                singles_g[inner(k)] = vg
+                        try:
+                            for k in keys:
+                                vg = hc.gets(k)
+                                if vg is not None and vg != (None, None):
+                                    singles_g[inner(k)] = vg
+                        except Exception as e:
+                            ctx.violation("gets raised on healthy servers with a legal key", dict(case0, error=repr(e)[:100]), tags=["op:gets"])
+                            continue
                         if gsm != singles_g:
                             ctx.violation("gets_many differs from the per-key gets", dict(case0, gets_many=repr(gsm)[:120], gets=repr(singles_g)[:120]), tags=["op:gets_many"])
                     # Lean: the grouping
